@@ -107,10 +107,19 @@ Dyck(evs) == DyckFrom(evs, 1, <<>>)
 CONSTANTS Mode, MaxBlocks, Sim
 VARIABLE g
 Pick(S) == IF Sim THEN {RandomElement(S)} ELSE S
-Init == IF Mode = "esc" THEN g \in {[si |-> s, ci |-> c] : s \in 1 .. Len(Slots), c \in 1 .. Len(Chars)} ELSE g = <<>>
+\* ---- edge family: a multi-byte character as the very last / very first character of the text in a slot ---------------------------
+\* place-holders written by the check: ~A = U+00E0, ~D = U+2020, ~S = U+0160 (their UTF-8 forms end in the byte 0xA0, the second byte of a no-break space),
+\* ~E = U+00E9, ~N = U+00F1 (end in other bytes); the twin carries the digit 7 in the same place
+EdgeChars == <<"~A", "~D", "~S", "~E", "~N">>
+EdgeRun(c, atEnd) == IF atEnd THEN Mark \o " w" \o c ELSE c \o "w " \o Mark
+EdgeDoc(si, c, atEnd) == Fill(Slots[si].t, EdgeRun(c, atEnd))
+EdgeSlots == {si \in 1 .. Len(Slots) : ~Tight(Slots[si].n)}
+Init == IF Mode = "edge" THEN g \in {[si |-> s, ci |-> c, atEnd |-> e] : s \in EdgeSlots, c \in 1 .. Len(EdgeChars), e \in BOOLEAN} ELSE
+        IF Mode = "esc" THEN g \in {[si |-> s, ci |-> c] : s \in 1 .. Len(Slots), c \in 1 .. Len(Chars)} ELSE g = <<>>
 \* a bracketed line right after a table is its caption (and HTML must put a caption first): not a plain link paragraph
 Next == Mode = "blocks" /\ Len(g) < MaxBlocks /\ \E k \in Pick(Kinds) : ~(k = "link" /\ g # <<>> /\ g[Len(g)] \in {"table", "tspan"}) /\ g' = Append(g, k)
-Emit == IF Mode = "esc" THEN PrintT(ToJson([si |-> g.si, ci |-> g.ci, slot |-> Slots[g.si].n, ch |-> Chars[g.ci].c, chname |-> Chars[g.ci].n, src |-> DocOf(g.si, g.ci), base |-> DocOf(g.si, Len(Chars))]))
+Emit == IF Mode = "edge" THEN PrintT(ToJson([slot |-> Slots[g.si].n, ch |-> EdgeChars[g.ci], atEnd |-> g.atEnd, src |-> EdgeDoc(g.si, EdgeChars[g.ci], g.atEnd), base |-> EdgeDoc(g.si, "7", g.atEnd)])) ELSE
+        IF Mode = "esc" THEN PrintT(ToJson([si |-> g.si, ci |-> g.ci, slot |-> Slots[g.si].n, ch |-> Chars[g.ci].c, chname |-> Chars[g.ci].n, src |-> DocOf(g.si, g.ci), base |-> DocOf(g.si, Len(Chars))]))
         ELSE (Len(g) >= 1 => PrintT(ToJson([ks |-> g, src |-> DocSrc(g, 1)])))
 \* laws: escaped forms never contain the raw reserved character of the target (except where the target does not reserve it)
 EscLaw == \A f \in {"html", "fodt", "latex"} : \A ci \in 1 .. Len(Chars) : Chars[ci].c \in Reserved(f) =>
